@@ -57,6 +57,9 @@ func newSearchColl(o *Opts, rng *rand.Rand, idx int, n int) *searchColl {
 			sc.add(rng, id)
 		case 1:
 			md := []byte(fmt.Sprintf(`{"v":%d,"tag":"u%d"}`, rng.Intn(5), rng.Intn(3)))
+			if rng.Intn(6) == 0 {
+				md = nil
+			}
 			sc.c.UpdateDocument(id, md)
 			sc.docs[id].meta = md
 		case 2:
@@ -77,6 +80,14 @@ func (sc *searchColl) add(rng *rand.Rand, id uint64) {
 		}
 	}
 	md := []byte(fmt.Sprintf(`{"v":%d,"tag":"t%d"}`, rng.Intn(5), rng.Intn(3)))
+	switch rng.Intn(16) {
+	case 0, 1:
+		md = nil // a document stored without metadata: every filter still has to be asked about it
+	case 2:
+		md = []byte("not json")
+	case 3:
+		md = []byte(`[1,2]`)
+	}
 	sc.c.AddDocument(id, v, md)
 	sc.docs[id] = &refDoc{id: id, meta: md}
 }
